@@ -12,7 +12,8 @@ from sim.runner import RunResult
 
 ID = "C10"
 RULE = ("plan = (schema/dataclass/function declaration over leaf-typed scalars, containers, unions; input of raw "
-        "payloads; leaf fault set; dropped required keys; excess keys; max_errors); each plan runs fail-fast, "
+        "payloads; constrained (Rule) leaves and '&' combinations; alias_from with one field given under two spellings; "
+        "ignore_constraints; leaf fault set; dropped required keys; excess keys; max_errors); each plan runs fail-fast, "
         "collecting and fault-free; non-trivial = >=2 failing top-level items or a fault below depth 1, fault fired; "
         "distinct by (declaration digest, failing-item set G, max_errors)")
 ASSUMPTIONS = [
@@ -29,7 +30,8 @@ TIERS = {
     "quick": {"runs": 24000, "chunk": 100, "selftest": 64, "minimise_s": 30},
     "thorough": {"budget_s": 600, "chunk": 400, "selftest": 512, "minimise_s": 90},
 }
-PROBES = ["union_all_branches_fail", "nested_fault", "max_errors_cut", "excess_key", "dropped_required", "varargs_fault"]
+PROBES = ["union_all_branches_fail", "nested_fault", "max_errors_cut", "excess_key", "dropped_required", "varargs_fault",
+          "alias_conflict", "all_of_type_fault", "ignore_constraints_run"]
 
 
 def generate(rng, tier):
@@ -40,19 +42,25 @@ def generate(rng, tier):
             "opts_at": rng.choice(["class", "runtime"]), "dfs": rng.choice([None, True, False])}
     fields = []
     inp = {}
+    RL = rng.random() < 0.6
+    plan["ignore_constraints"] = rng.random() < 0.15
+    plan["conflict"] = {}
     for i in range(rng.choice([1, 2, 3, 3, 4, 5])):
         r = rng.random()
         if r < 0.5:
-            t = tdsl.gen_scalar(rng)
+            t = tdsl.gen_scalar(rng, rule_leaves=RL, all_of=RL)
         elif r < 0.9:
-            t = tdsl.gen_container(rng, 1)
+            t = tdsl.gen_container(rng, 1, rule_leaves=RL, all_of=RL)
         else:
-            t = tdsl.gen_container(rng, 2)
+            t = tdsl.gen_container(rng, 2, rule_leaves=RL, all_of=RL)
         required = rng.random() < 0.6
-        f = {"name": "f%d" % i, "type": t, "required": required}
+        f = {"name": "f%d" % i, "type": t, "required": required, "alias_from": ["a%d" % i] if rng.random() < 0.3 else []}
         fields.append(f)
         if required or rng.random() < 0.7:
             inp[f["name"]] = tdsl.gen_value(rng, t, pool, positions, (f["name"],))
+            if f["alias_from"] and rng.random() < 0.5:
+                # structural fault: the same field once more under its other spelling, with another value
+                plan["conflict"][f["name"]] = tdsl.gen_value(rng, t, pool, positions, (f["name"] + "'",))
     plan["fields"] = fields
     plan["addition"] = rng.choice([None, False, False, "leaf"])
     plan["drop"] = []
@@ -60,6 +68,7 @@ def generate(rng, tier):
         if f["required"] and rng.random() < 0.2:
             plan["drop"].append(f["name"])
             inp.pop(f["name"], None)
+            plan["conflict"].pop(f["name"], None)
     plan["excess"] = {}
     for j in range(rng.choice([0, 0, 1, 2])):
         plan["excess"]["x%d" % j] = tdsl.gen_value(rng, ["leaf"], pool, positions, ("x%d" % j,))
@@ -70,6 +79,7 @@ def generate(rng, tier):
         if plan["args"]:
             # varargs require every named parameter to be passed positionally
             plan["drop"] = []
+            plan["conflict"] = {}
             for f in fields:
                 if f["name"] not in inp:
                     inp[f["name"]] = tdsl.gen_value(rng, f["type"], pool, positions, (f["name"],))
@@ -96,6 +106,8 @@ def build(plan, collect, faulted=True):
             okw["max_errors"] = plan["max_errors"]
     if plan.get("dfs") is not None:
         okw["data_first_search"] = plan["dfs"]
+    if plan.get("ignore_constraints"):
+        okw["ignore_constraints"] = True
     kind = plan["kind"]
     if kind in ("schema", "dataclass"):
         add = plan["addition"]
@@ -104,8 +116,13 @@ def build(plan, collect, faulted=True):
         ns = {"__annotations__": {}, "__module__": "verif_c10", "__qualname__": "M"}
         for f in plan["fields"]:
             ns["__annotations__"][f["name"]] = tdsl.build_type(f["type"])
+            fkw = {}
             if not f["required"]:
-                ns[f["name"]] = Field(required=False)
+                fkw["required"] = False
+            if f.get("alias_from"):
+                fkw["alias_from"] = list(f["alias_from"])
+            if fkw:
+                ns[f["name"]] = Field(**fkw)
         opts = Options(**okw)
         at_class = plan["opts_at"] == "class"
         # addition is a declaration-level setting (typed addition is resolved by the class parser)
@@ -115,14 +132,16 @@ def build(plan, collect, faulted=True):
             return lambda v, a: cls(**v)
         return lambda v, a: cls.__from__(v, options=opts)
     # function: parameters in field order (required first as python demands), *args, optional **kwargs
-    req = [f for f in plan["fields"] if f["required"]]
-    opt = [f for f in plan["fields"] if not f["required"]]
-    order = req + opt
+    order = func_order(plan)
     params = []
     env = {"Leaf": faults.Leaf, "__name__": "verif_c10"}
     for f in order:
         env["T_" + f["name"]] = tdsl.build_type(f["type"])
-        params.append(f"{f['name']}: T_{f['name']}" + ("" if f["required"] else " = None"))
+        if f.get("alias_from"):
+            env["P_" + f["name"]] = utype.Param(alias_from=list(f["alias_from"])) if f["required"] else utype.Param(None, alias_from=list(f["alias_from"]))
+            params.append(f"{f['name']}: T_{f['name']} = P_{f['name']}")
+        else:
+            params.append(f"{f['name']}: T_{f['name']}" + ("" if f["required"] else " = None"))
     params.append("*args: Leaf")
     if plan["addition"] == "leaf":
         params.append("**kwargs: Leaf")
@@ -141,13 +160,19 @@ def build(plan, collect, faulted=True):
 
 
 def func_order(plan):
-    return [f for f in plan["fields"] if f["required"]] + [f for f in plan["fields"] if not f["required"]]
+    # python's rule: parameters written with "= something" come last; an aliased required parameter is written "= Param(...)"
+    req_plain = [f for f in plan["fields"] if f["required"] and not f.get("alias_from")]
+    req_alias = [f for f in plan["fields"] if f["required"] and f.get("alias_from")]
+    return req_plain + req_alias + [f for f in plan["fields"] if not f["required"]]
+
+
+_XOPTS = {}
 
 
 def _item_fails(t, v):
     import utype
     try:
-        utype.type_transform(v, tdsl.rule_type(t), options=utype.Options())
+        utype.type_transform(v, tdsl.rule_type(t), options=utype.Options(**_XOPTS))
         return False
     except Exception:  # noqa
         return True
@@ -161,6 +186,11 @@ def ground_truth(plan, stats):
     for name, v in value.items():
         if _item_fails(ftypes[name]["type"], v):
             G.add(name)
+    for name, vx in (plan.get("conflict") or {}).items():
+        # two spellings with different values: the item is rejected whatever the values are
+        if name in value and tdsl.build_value(vx) != value[name]:
+            G.add(name)
+            stats["probe:alias_conflict"] += 1
     for f in plan["fields"]:
         if f["required"] and f["name"] not in plan["input"]:
             G.add(f["name"])
@@ -207,14 +237,19 @@ def _run(plan, collect):
     call = build(plan, collect)
     value = tdsl.build_value(plan["input"])
     value.update({k: tdsl.build_value(v) for k, v in plan["excess"].items()})
+    for name, vx in (plan.get("conflict") or {}).items():
+        alias = [f for f in plan["fields"] if f["name"] == name][0]["alias_from"][0]
+        value[alias] = tdsl.build_value(vx)
     args = [tdsl.build_value(a) for a in plan.get("args", [])]
     try:
         return ("ok", _canon(_observe(plan, call(value, args))))
     except CollectedParseError as e:
         items = []
+        kinds = []
         for err in e.errors:
             items.append(_norm_item(plan, getattr(err, "item", None)))
-        return ("collected", items, len(e.errors))
+            kinds.append([type(err).__name__, str(items[-1])])
+        return ("collected", items, len(e.errors), kinds)
     except ParseError as e:
         return ("ParseError", _norm_item(plan, getattr(e, "item", None)))
     except Exception as e:  # noqa
@@ -239,6 +274,7 @@ def execute(plan):
             import random
             ctl["input"][f["name"]] = tdsl.gen_value(random.Random(1), f["type"], pool, [], ())
     ctl["drop"] = []
+    ctl["conflict"] = {}
     c1, c2 = _run(ctl, False), _run(ctl, True)
     if c1[0] != "ok" or c2 != c1:
         raise kernel.HarnessError(f"C10 control: fail-fast {c1} collecting {c2} plan={kernel.jdump(ctl)}")
@@ -246,6 +282,9 @@ def execute(plan):
 
     faults.reset()
     faults.set_plan(plan["faults"])
+    _XOPTS.clear()
+    if plan.get("ignore_constraints"):
+        _XOPTS["ignore_constraints"] = True
     G = ground_truth(plan, res.stats)
     faults.STATE.fired.clear()
     ff = _run(plan, False)
@@ -278,6 +317,16 @@ def execute(plan):
             res.violate(f"C10|{plan['kind']}|3:not_one_collected_error|{path_kind}|{me}", f"collecting mode raised {co}")
         else:
             names = set(co[1])
+            dropped = {f["name"] for f in plan["fields"] if f["required"] and f["name"] not in plan["input"]}
+            for cls_name, item in co[3]:
+                # the kind of a reported error must fit what was done to that item: a present item is not "absent",
+                # a declared field is not an "exceeding key"
+                if cls_name == "AbsenceError" and item not in dropped:
+                    res.violate(f"C10|{plan['kind']}|3:present_item_reported_absent|{path_kind}|{me}",
+                                f"AbsenceError for {item!r}, which is present in the input; reported {co[3]}")
+                if cls_name == "ExceedError" and item not in plan["excess"]:
+                    res.violate(f"C10|{plan['kind']}|3:field_reported_exceeding|{path_kind}|{me}",
+                                f"ExceedError for {item!r}, which is a declared field; reported {co[3]}")
             if not names <= G:
                 res.violate(f"C10|{plan['kind']}|3:valid_item_reported|{path_kind}|{me}",
                             f"reported {sorted(map(str, names))} but failing items are {sorted(G)}")
@@ -297,6 +346,10 @@ def execute(plan):
         res.nontrivial = kernel.digest_of([plan["kind"], [(f["type"], f["required"]) for f in plan["fields"]],
                                            plan["addition"], sorted(G), plan["max_errors"], plan["dfs"],
                                            sorted(plan["faults"]["leaf"].values())])
+    if plan.get("ignore_constraints"):
+        res.stats["probe:ignore_constraints_run"] += 1
+    if fired and '"and"' in kernel.jdump([f["type"] for f in plan["fields"]]):
+        res.stats["probe:all_of_type_fault"] += 1
     if "nested" in path_kind:
         res.stats["probe:nested_fault"] += 1
     if "union" in path_kind:
